@@ -18,6 +18,10 @@ int c_aggregate(int nval, int operator, int maxnan, int * aggindex,
     /* In case NAN is not defined */
     nan = 1./zero * zero;
 
+    /* Nothing to aggregate: aggindex[0] and outputs[0] do not exist */
+    if(nval < 1)
+        return DUTILS_ERROR + __LINE__;
+
     /* Initialise */
     iaprev = aggindex[0];
     ia = 0;
